@@ -1,4 +1,6 @@
 import SC.Proofs.SpecIndex
+import SC.Proofs.RTrim
+import SC.Proofs.RSuffix
 /-!
 # C09 — prefix/suffix tests and trims remove exactly the matched text, or nothing
 -/
@@ -87,6 +89,25 @@ theorem hasSuffix_iff (s p : Bytes) : S.hasSuffix s p = true ↔ S.fruns p <:+ S
   · rw [if_neg (fun hh => hl hh.1)]
     simp only [Option.isSome_none, Bool.false_eq_true, false_iff]
     intro hs; exact hl hs.length_le
+
+/-! ### Refinement: the transliterated algorithms equal the specification
+
+`A.hasPrefixUnicode` (ASCII loop, rune loop, length pre-check with `containsKelvin` → `indexRuneCase`),
+`A.TrimPrefix` (its own loops), `A.hasSuffixUnicode` (ASCII loop from the end, rune loop with
+`DecodeLastRune`), and the wrappers — for **all** byte strings and both packages.  The theorems above
+therefore hold of the algorithm model too. -/
+
+theorem hasPrefix_refines (cfg : A.Cfg) (s p : Bytes) : A.HasPrefix cfg s p = S.hasPrefix s p := A.HasPrefix_eq cfg s p
+theorem trimPrefix_refines (cfg : A.Cfg) (s p : Bytes) : A.TrimPrefix cfg s p = S.trimPrefix s p := A.TrimPrefix_eq cfg s p
+theorem cutPrefix_refines (cfg : A.Cfg) (s p : Bytes) : A.CutPrefix cfg s p = S.cutPrefix s p := A.CutPrefix_eq cfg s p
+theorem hasSuffix_refines (cfg : A.Cfg) (s p : Bytes) : A.HasSuffix cfg s p = S.hasSuffix s p := A.HasSuffix_eq cfg s p
+theorem trimSuffix_refines (cfg : A.Cfg) (s p : Bytes) : A.TrimSuffix cfg s p = S.trimSuffix s p := A.TrimSuffix_eq cfg s p
+theorem cutSuffix_refines (cfg : A.Cfg) (s p : Bytes) : A.CutSuffix cfg s p = S.cutSuffix s p := A.CutSuffix_eq cfg s p
+
+/-- the `exhausted` flag of the verifier (used by the Index strategies to stop early) is sound -/
+theorem hasPrefixUnicode_exhausted (cfg : A.Cfg) (s p : Bytes)
+    (h1 : (A.hasPrefixUnicode cfg s p).1 = false) (h2 : (A.hasPrefixUnicode cfg s p).2 = true) :
+    ∀ k, ¬ S.fruns p <+: (S.fruns s).drop k := (A.hasPrefixUnicode_contract cfg s p).2 h1 h2
 
 example : S.trimPrefix [0xE2, 0x84, 0xAA, 0x62] [0x6B] = (3, 1) ∧ S.trimPrefix [0x61, 0x62, 0x63] [0x61, 0x62, 0x63, 0x64] = (0, 3) := by decide +kernel
 end C09
